@@ -1,9 +1,5 @@
 // SPEC: CLVM tree over byte strings and its consensus serialisation
-pub enum Tree {
-    Atom(Seq<u8>),
-    Pair(Box<Tree>, Box<Tree>),
-}
-pub open spec fn tnil() -> Tree { Tree::Atom(Seq::<u8>::empty()) }
+//@ include spec/treedef.rs
 // SPEC: consensus serialisation of a tree (clvmr serde::node_to_bytes): 0xff left right for a pair, enc_atom for an atom
 pub open spec fn ser(t: Tree) -> Seq<u8>
     decreases t
